@@ -24,7 +24,7 @@ CHECKS = {
  "C14": ("bounded symbolic model checking of window formulas with exact rational-multiple-of-pi trig stub", SYMRUN + " (QF_NRA, exact trig stub)"),
  "C15": ("inductive-step symbolic model checking of MultiKeyDict from an arbitrary valid representation with symbolic keys/values (SymDict), bounded histories for StrategyDict", SYMRUN + " (LIA)"),
  "C16": ("bounded symbolic model checking of the mixer: deltas, items and history kinds symbolic", SYMRUN + " (LRA)"),
- "C17": ("bounded model checking of a transition system translated from lazy_io.py's AST: the thread schedule is the symbolic variable", "AST-to-transition-system translation + z3 BMC (QF_BV) + schedule replay on the real classes"),
+ "C17": ("bounded model checking of a transition system translated from lazy_io.py's AST: the thread schedule, one backend failure point per player and the arrival of a second closing thread are symbolic; the content half (what one player hands to the device) is decided by symbolic execution of the real AudioThread.run on symbolic audio", "AST-to-transition-system translation + z3 BMC (QF_BV) with symbolic schedule / fault point, replayed on the real classes; plus " + SYMRUN + " (LIA) for the chunk contents"),
  "C18": ("bounded symbolic model checking of PCM codecs over symbolic bytes with contract stubs for struct/array/wave", SYMRUN + " (LIA)"),
  "C19": ("bounded symbolic model checking of generators: durations, steps, table entries symbolic", SYMRUN + " (mixed LIA/LRA)"),
  "C20": ("bounded symbolic model checking of sample-wise analysis tools over symbolic samples and parameters", SYMRUN + " (LRA/NRA)"),
@@ -57,7 +57,7 @@ def main():
                  "baseline_off_cmd": "cd /repo && /venv/bin/python -m pytest -q -p no:cacheprovider --timeout=900 --continue-on-collection-errors",
                  "source_commits": [], "add_only": True},
        "engines": [
-         {"name": "symrun", "path": "symrun/", "serves_properties": [c["property_id"] for c in checks if c["engine"] == "symrun"],
+         {"name": "symrun", "path": "symrun/", "serves_properties": [c["property_id"] for c in checks if c["engine"] == "symrun"] + ["C17"],
           "kind_free_text": "proxy-based symbolic execution of the real Python code with z3 (decision-prefix replay); every obligation a solver query; counterexamples replayed natively before any VIOLATION"},
          {"name": "pyts", "path": "pyts/", "serves_properties": ["C17"],
           "kind_free_text": "AST of lazy_io.py -> guarded-command transition system (Lipton-reduced) -> z3 QF_BV bounded model checking with a symbolic schedule; counterexample and sample schedules replayed on the real classes under a line-level scheduler"},
